@@ -28,6 +28,10 @@ type PropConfig struct {
 	// obligations of the listed functions.
 	Select  []string `json:"select"`
 	Exclude []string `json:"exclude"`
+	// Type-level contracts of the property: pure contract functions whose only content is their signature
+	// (e.g. "the singleflight table of a shard is a Group keyed by K"). If the contract files stop type-checking
+	// exactly there, the property's contract is violated by the changed code.
+	TypeContracts []string `json:"type_contracts"`
 }
 
 type KnownFinding struct {
@@ -533,4 +537,61 @@ func writeEvidence(verifDir string, pc *PropConfig, tier string, seed int64, res
 	os.MkdirAll(filepath.Join(verifDir, "evidence"), 0o755)
 	b, _ := json.MarshalIndent(ev, "", " ")
 	os.WriteFile(filepath.Join(verifDir, "evidence", pc.ID+".json"), append(b, '\n'), 0o644)
+}
+
+// loadErrorVerdict: /repo does not type-check with the contract files. If every error lies inside a contract file
+// and one of them lies inside a type-level contract of this property, the changed code contradicts that contract:
+// VIOLATION (exit 1). Otherwise the property is undecided: exit 2, no VIOLATION line.
+func loadErrorVerdict(le *LoadError, verifDir, repo, propID string) int {
+	var props []PropConfig
+	if err := loadJSON(filepath.Join(verifDir, "props.json"), &props); err != nil {
+		return 2
+	}
+	var pc *PropConfig
+	for i := range props {
+		if props[i].ID == propID {
+			pc = &props[i]
+		}
+	}
+	if pc == nil || len(pc.TypeContracts) == 0 {
+		return 2
+	}
+	hit := ""
+	for _, e := range le.Errs {
+		// Pos is file:line:col
+		parts := strings.Split(e.Pos, ":")
+		if len(parts) < 2 || !strings.HasPrefix(filepath.Base(parts[0]), "zz_") || !strings.HasSuffix(parts[0], "_verif.go") {
+			return 2 // the tree itself does not build: not a verdict about the property
+		}
+		var line int
+		fmt.Sscan(parts[1], &line)
+		src, err := os.ReadFile(parts[0])
+		if err != nil {
+			return 2
+		}
+		// enclosing top-level function: the last "func " at column 0 at or before the line
+		lines := strings.Split(string(src), "\n")
+		for i := line - 1; i >= 0 && i < len(lines); i-- {
+			if strings.HasPrefix(lines[i], "func ") {
+				for _, tc := range pc.TypeContracts {
+					if strings.HasPrefix(lines[i], "func "+tc+"[") || strings.HasPrefix(lines[i], "func "+tc+"(") {
+						hit = tc + ": " + e.Msg
+					}
+				}
+				break
+			}
+		}
+	}
+	if hit == "" {
+		return 2
+	}
+	replayDir := filepath.Join(verifDir, "replays", propID)
+	os.MkdirAll(replayDir, 0o755)
+	path := filepath.Join(replayDir, "type_contract.json")
+	rep := map[string]interface{}{"property": propID, "obligation": "typecontract." + strings.SplitN(hit, ":", 2)[0],
+		"reason": "the contract files no longer type-check against the code inside a type-level contract of this property", "compiler_output": le.Error()}
+	b, _ := json.MarshalIndent(rep, "", " ")
+	os.WriteFile(path, b, 0o644)
+	fmt.Printf("VIOLATION property=%s replay=%s obligation=typecontract.%s status=type-error no-failing-input-found\n", propID, path, strings.SplitN(hit, ":", 2)[0])
+	return 1
 }
